@@ -1,8 +1,8 @@
 (** Concrete inputs: the examples of the extension documents reproduced by the
-    transcription (LayoutSpec.v) and by the code model, one witness inside every
-    known-finding class of KnownC11.v, and the inputs of the four repaired classes on
-    which code model and documents now agree (all by computation). *)
-From Rocfl Require Import Base.Bytes Model.Layout Model.LayoutSpec Model.KnownC11.
+    transcription (LayoutSpec.v) and by the code model, and the inputs of the seven
+    repaired classes (no known class is left) on which code model and documents now
+    agree (all by computation). *)
+From Rocfl Require Import Base.Bytes Model.Layout Model.LayoutSpec.
 Open Scope N_scope.
 
 Definition au := ascii_ustr.
@@ -23,8 +23,8 @@ Definition sha256_long101 := b "5cc73e648fbcff136510e330871180922ddacf193b68fdef
 (** both functions on one input, with the side conditions of the theorems *)
 Definition both (c : cfg) (id : ustr) (dg : bytes) : res bytes * res bytes :=
   (Layout.map c id dg, LayoutSpec.map c id dg).
-Definition side (c : cfg) (id : ustr) (dg : bytes) : bool * bool * bool :=
-  (cfg_ok c, inputs_ok c id dg, known_c11 c id).
+Definition side (c : cfg) (id : ustr) (dg : bytes) : bool * bool :=
+  (cfg_ok c, inputs_ok c id dg).
 
 (** * the mapping tables of the documents *)
 Lemma doc_0002 :
@@ -35,13 +35,13 @@ Lemma doc_0004_ex1 :
   both (cfg4 Sha256 3 3 false) (au (b "object-01")) sha256_object_01 =
     (Ok (b "3c0/ff4/240/3c0ff4240c1e116dba14c7627f2319b58aa3d77606d0d90dfc6161608ac987d4"),
      Ok (b "3c0/ff4/240/3c0ff4240c1e116dba14c7627f2319b58aa3d77606d0d90dfc6161608ac987d4")) /\
-  side (cfg4 Sha256 3 3 false) (au (b "object-01")) sha256_object_01 = (true, true, false).
+  side (cfg4 Sha256 3 3 false) (au (b "object-01")) sha256_object_01 = (true, true).
 Proof. split; vm_compute; reflexivity. Qed.
 
 Lemma doc_0004_ex2 :
   both (cfg4 Md5 2 15 true) horrible md5_horrible =
     (Ok (b "08/31/97/66/fb/6c/29/35/dd/17/5b/94/26/77/17/e0"), Ok (b "08/31/97/66/fb/6c/29/35/dd/17/5b/94/26/77/17/e0")) /\
-  side (cfg4 Md5 2 15 true) horrible md5_horrible = (true, true, false).
+  side (cfg4 Md5 2 15 true) horrible md5_horrible = (true, true).
 Proof. split; vm_compute; reflexivity. Qed.
 
 Lemma doc_0004_ex3 :
@@ -51,7 +51,7 @@ Proof. vm_compute. reflexivity. Qed.
 Lemma doc_0003_ex1 :
   both (cfg3 Sha256 3 3) horrible sha256_horrible =
     (Ok (b "487/326/d8c/%2e%2ehor%2frib%3ale-%24id"), Ok (b "487/326/d8c/%2e%2ehor%2frib%3ale-%24id")) /\
-  side (cfg3 Sha256 3 3) horrible sha256_horrible = (true, true, false).
+  side (cfg3 Sha256 3 3) horrible sha256_horrible = (true, true).
 Proof. split; vm_compute; reflexivity. Qed.
 
 Lemma doc_0003_ex2 :
@@ -74,7 +74,7 @@ Lemma doc_0006 :
     (Ok (b "/12345/x54xz321/s3/f8.05v"), Ok (b "/12345/x54xz321/s3/f8.05v")) /\
   both (cfg6 (au (b "edu/"))) (au (b "https://institution.EDU/3448793")) [] = (Ok (b "3448793"), Ok (b "3448793")) /\
   both (cfg6 (au (b ":"))) (au (b "urn:uuid:")) [] = (Panic, Err) /\
-  side (cfg6 (au (b "edu/"))) (au (b "https://institution.EDU/3448793")) sha256_object_01 = (true, true, false).
+  side (cfg6 (au (b "edu/"))) (au (b "https://institution.EDU/3448793")) sha256_object_01 = (true, true).
 Proof. repeat split; vm_compute; reflexivity. Qed.
 
 Lemma doc_0007 :
@@ -86,39 +86,69 @@ Lemma doc_0007 :
   both (cfg7 (au (b "edu/")) 3 3 false false) (au (b "https://institution.edu/abc/edu/f8.05v")) [] = (Ok (b "f8./05v/000/f8.05v"), Ok (b "f8./05v/000/f8.05v")) /\
   both (cfg7 (au (b ":")) 3 3 true false) (au (b "urn:")) [] = (Panic, Err) /\
   both (cfg7 (au (b ":")) 3 3 true false) (mkS [mkU (bs [195; 169]) (bs [195; 169])] (bs [195; 169]) (bs [195; 137])) [] = (Panic, Err) /\
-  side (cfg7 (au (b "edu/")) 3 3 false false) (au (b "https://institution.edu/abc/edu/f8.05v")) sha256_object_01 = (true, true, false).
+  side (cfg7 (au (b "edu/")) 3 3 false false) (au (b "https://institution.edu/abc/edu/f8.05v")) sha256_object_01 = (true, true).
 Proof. repeat split; vm_compute; reflexivity. Qed.
 
-(** * one witness inside every known class *)
+(** * the case-folding class (fix 91d5aeb): the former witnesses are agreements *)
 (** U+212A KELVIN SIGN lower-cases to 'k': three bytes become one *)
 Definition kelvin_id : ustr :=
-  mkS (mkU (bs [226; 132; 170]) (b "k") :: us_chars (au (b "edu/x"))) (b "kedu/x") (b "KEDU/X").
-Lemma casefold_kelvin :
-  both (cfg6 (au (b "edu/"))) kelvin_id [] = (Ok (b "u/x"), Ok (b "x")) /\
-  c11_casefold (cfg6 (au (b "edu/"))) kelvin_id = true /\ ustr_wf kelvin_id = true.
-Proof. repeat split; vm_compute; reflexivity. Qed.
-
-(** final sigma: str::to_lowercase of "aΣ/x" is "aς/x", of the delimiter "Σ/" it is "σ/" *)
+  mkS (mkU (bs [226; 132; 170]) (b "k") :: us_chars (au (b "edu/x"))) (b "kedu/x") (bs [226; 132; 170; 69; 68; 85; 47; 88]).
+(** final sigma: str::to_lowercase of "a" U+03A3 "/x" ends the word with U+03C2, of the
+    delimiter U+03A3 "/" it is U+03C3 "/"; char::to_lowercase of U+03A3 is U+03C3 in both *)
 Definition sigma_delim : ustr :=
   mkS [mkU (bs [206; 163]) (bs [207; 131]); mkU (b "/") (b "/")] (bs [207; 131; 47]) (bs [206; 163; 47]).
 Definition sigma_id : ustr :=
   mkS [mkU (b "a") (b "a"); mkU (bs [206; 163]) (bs [207; 131]); mkU (b "/") (b "/"); mkU (b "x") (b "x")]
       (bs [97; 207; 130; 47; 120]) (bs [65; 206; 163; 47; 88]).
-Lemma casefold_final_sigma :
-  both (cfg6 sigma_delim) sigma_id [] = (Ok (bs [97; 206; 163; 47; 120]), Ok (b "x")) /\
-  c11_casefold (cfg6 sigma_delim) sigma_id = true /\ ustr_wf sigma_id = true /\ ustr_wf sigma_delim = true.
-Proof. repeat split; vm_compute; reflexivity. Qed.
-
-(** U+1E9E lower-cases to U+00DF: the index lands inside a character and the slice panics *)
+(** U+1E9E lower-cases to U+00DF: three bytes become two *)
 Definition sharp_delim : ustr := mkS [mkU (bs [195; 159]) (bs [195; 159])] (bs [195; 159]) (b "SS").
 Definition sharp_id : ustr :=
   mkS [mkU (b "a") (b "a"); mkU (bs [225; 186; 158]) (bs [195; 159]); mkU (b "b") (b "b")]
       (bs [97; 195; 159; 98]) (bs [65; 225; 186; 158; 66]).
-Lemma casefold_sharp_s_panics :
-  both (cfg6 sharp_delim) sharp_id [] = (Panic, Ok (b "b")) /\ c11_casefold (cfg6 sharp_delim) sharp_id = true.
+(** U+0130 lower-cases to 'i' U+0307: two bytes become three, one character becomes two *)
+Definition idot : uchar := mkU (bs [196; 176]) (bs [105; 204; 135]).
+Definition idot_id : ustr :=
+  mkS (idot :: us_chars (au (b "edu/xyz"))) (bs [105; 204; 135; 101; 100; 117; 47; 120; 121; 122])
+      (bs [196; 176; 69; 68; 85; 47; 88; 89; 90]).
+Definition idot_delim : ustr := mkS [idot] (bs [105; 204; 135]) (bs [196; 176]).
+Definition i_dot_id : ustr :=     (* "x" "i" U+0307 "y" *)
+  mkS [mkU (b "x") (b "x"); mkU (b "i") (b "i"); mkU (bs [204; 135]) (bs [204; 135]); mkU (b "y") (b "y")]
+      (bs [120; 105; 204; 135; 121]) (bs [88; 73; 204; 135; 89]).
+
+Lemma fixed_casefold :
+  both (cfg6 (au (b "edu/"))) kelvin_id [] = (Ok (b "x"), Ok (b "x")) /\
+  both (cfg6 sigma_delim) sigma_id [] = (Ok (b "x"), Ok (b "x")) /\
+  both (cfg6 sharp_delim) sharp_id [] = (Ok (b "b"), Ok (b "b")) /\
+  both (cfg6 (au (b "edu/"))) idot_id [] = (Ok (b "xyz"), Ok (b "xyz")) /\
+  side (cfg6 (au (b "edu/"))) kelvin_id sha256_object_01 = (true, true) /\
+  side (cfg6 sigma_delim) sigma_id sha256_object_01 = (true, true) /\
+  side (cfg6 sharp_delim) sharp_id sha256_object_01 = (true, true) /\
+  side (cfg6 (au (b "edu/"))) idot_id sha256_object_01 = (true, true).
 Proof. repeat split; vm_compute; reflexivity. Qed.
 
-(** * the repaired classes: the former witnesses are now agreements *)
+(** the one place where the two readings of "case-insensitive" part: the delimiter U+0130
+    against "i" U+0307 in the id (same lower-case form, not the same number of characters).
+    Code and documents (as read in LayoutSpec.v) take it for an occurrence. *)
+Lemma readings_part_at_idot :
+  both (cfg6 idot_delim) i_dot_id [] = (Ok (b "y"), Ok (b "y")) /\
+  side (cfg6 idot_delim) i_dot_id sha256_object_01 = (true, true) /\
+  after_last_simple (us_chars idot_delim) (us_chars i_dot_id) = None.
+Proof. repeat split; vm_compute; reflexivity. Qed.
+
+(** historical note: BEFORE fix 91d5aeb layout 0006 removed the prefix the way 0007 still
+    does (rfind on the lower-cased id, the byte index applied to the original id); that
+    function, as a separate definition, disagrees with the documents on the three inputs *)
+Definition map_0006_before_fix (c : cfg) (id : ustr) : res bytes := strip_prefix (c_delim c) id.
+Lemma history_casefold_before_fix :
+  map_0006_before_fix (cfg6 (au (b "edu/"))) kelvin_id = Ok (b "u/x") /\
+  map_0006_before_fix (cfg6 sigma_delim) sigma_id = Ok (bs [97; 206; 163; 47; 120]) /\
+  map_0006_before_fix (cfg6 sharp_delim) sharp_id = Panic /\
+  LayoutSpec.map (cfg6 (au (b "edu/"))) kelvin_id [] = Ok (b "x") /\
+  LayoutSpec.map (cfg6 sigma_delim) sigma_id [] = Ok (b "x") /\
+  LayoutSpec.map (cfg6 sharp_delim) sharp_id [] = Ok (b "b").
+Proof. repeat split; vm_compute; reflexivity. Qed.
+
+(** * the classes repaired earlier: the former witnesses are agreements *)
 (** 0003 without tuples (fix e1de1bb): the root is the encapsulation directory, also the
     truncated one *)
 Lemma fixed_0003_zero_tuples :
@@ -128,7 +158,7 @@ Lemma fixed_0003_zero_tuples :
   both (cfg3 Sha256 0 0) long101 sha256_long101 =
     (Ok (b "abcdefghijabcdefghijabcdefghijabcdefghijabcdefghijabcdefghijabcdefghijabcdefghijabcdefghijabcdefghij-5cc73e648fbcff136510e330871180922ddacf193b68fdeff855683a01464220"),
      Ok (b "abcdefghijabcdefghijabcdefghijabcdefghijabcdefghijabcdefghijabcdefghijabcdefghijabcdefghijabcdefghij-5cc73e648fbcff136510e330871180922ddacf193b68fdeff855683a01464220")) /\
-  side (cfg3 Sha256 0 0) (au (b "object-01")) sha256_object_01 = (true, true, false).
+  side (cfg3 Sha256 0 0) (au (b "object-01")) sha256_object_01 = (true, true).
 Proof. repeat split; vm_compute; reflexivity. Qed.
 
 (** 0007 (fix 970818d): a control character is refused like a non-ASCII one; 0x20 and
@@ -141,7 +171,7 @@ Lemma fixed_0007_ctrl :
   both (cfg7 (au (b ":")) 3 3 true false) (au (bs [0; 58; 97])) [] = (Panic, Err) /\
   both (cfg7 (au (b ":")) 2 2 true false) edge_id [] =
     (Ok (bs [48; 48; 47; 32; 127; 47; 32; 127]), Ok (bs [48; 48; 47; 32; 127; 47; 32; 127])) /\
-  side (cfg7 (au (b ":")) 3 3 true false) ctrl_id sha256_object_01 = (true, true, false).
+  side (cfg7 (au (b ":")) 3 3 true false) ctrl_id sha256_object_01 = (true, true).
 Proof. repeat split; vm_compute; reflexivity. Qed.
 
 (** historical note: the behaviour BEFORE the two fixes, as separate definitions (not part
@@ -161,6 +191,8 @@ Proof. repeat split; vm_compute; reflexivity. Qed.
 (** configurations *)
 Definition obj (ext alg ts nt short delim pad rv : jv) : raw := RawObj (mkRaw ext alg ts nt short delim pad rv).
 Definition is_accepted (r : res cfg) : bool := match r with Ok _ => true | _ => false end.
+Definition new_params_agree (m : res cfg) (sp : option cfg) : bool :=
+  match m, sp with Ok c, Some sc => same_params c sc | Err, None => true | _, _ => false end.
 
 (** numbers above 32 (fix d1aca14) are refused by code and documents: 33, 64, u32::MAX+1
     squared (the former overflow panic) and usize::MAX, in debug and release arithmetic;
@@ -193,19 +225,37 @@ Lemma fixed_cfg_short_root :
   both (cfg4 Sha256 7 9 true) (au (b "object-01")) sha256_object_01 =
     (Ok (b "3c0ff42/40c1e11/6dba14c/7627f23/19b58aa/3d77606/d0d90df/c616160/8ac987d/4"),
      Ok (b "3c0ff42/40c1e11/6dba14c/7627f23/19b58aa/3d77606/d0d90df/c616160/8ac987d/4")) /\
-  new true E0004 (RawSeq [JStr (au (ext_name E0004)); JStr (au (b "md5")); JNum 2; JNum 16; JBool true]) = Err.
+  new true E0004 (obj (JStr (au (ext_name E0004))) (JStr (au (b "md5"))) (JNum 2) (JNum 16) (JBool true) JAbsent JAbsent JAbsent) = Err.
 Proof. repeat split; vm_compute; reflexivity. Qed.
 
-Lemma cfg_0007_defaults_refused :
-  new true E0007 RawNone = Err /\ allowed E0007 RawNone = true /\
-  new true E0007 (obj (JStr (au (ext_name E0007))) JAbsent JAbsent JAbsent JAbsent JAbsent JAbsent JAbsent) = Err /\
-  allowed E0007 (obj (JStr (au (ext_name E0007))) JAbsent JAbsent JAbsent JAbsent JAbsent JAbsent JAbsent) = true.
+(** 0007 without delimiter and without config.json (fix dec6d3f): accepted, with the
+    documented defaults (delimiter ":", 3 x 3, left padding, no reversal) *)
+Definition path_under (r : res cfg) (id : ustr) : res bytes := res_bind r (fun c => Layout.map c id []).
+Lemma fixed_cfg_0007_defaults :
+  new_params_agree (new true E0007 RawNone) (parse E0007 RawNone) = true /\
+  allowed E0007 RawNone = true /\
+  new_params_agree (new true E0007 (obj (JStr (au (ext_name E0007))) JAbsent JAbsent JAbsent JAbsent JAbsent JAbsent JAbsent))
+                   (parse E0007 (obj (JStr (au (ext_name E0007))) JAbsent JAbsent JAbsent JAbsent JAbsent JAbsent JAbsent)) = true /\
+  allowed E0007 (obj (JStr (au (ext_name E0007))) JAbsent JAbsent JAbsent JAbsent JAbsent JAbsent JAbsent) = true /\
+  path_under (new true E0007 RawNone) (au (b "ns:12")) = Ok (b "000/000/012/12") /\
+  path_under (new true E0007 (obj (JStr (au (ext_name E0007))) JAbsent (JNum 2) JAbsent JAbsent JAbsent JAbsent JAbsent)) (au (b "urn:uuid:12345")) =
+    Ok (b "01/23/45/12345") /\
+  new true E0006 RawNone = Err /\ allowed E0006 RawNone = false /\
+  new true E0006 (obj (JStr (au (ext_name E0006))) JAbsent JAbsent JAbsent JAbsent JAbsent JAbsent JAbsent) = Err /\
+  allowed E0006 (obj (JStr (au (ext_name E0006))) JAbsent JAbsent JAbsent JAbsent JAbsent JAbsent JAbsent) = false.
 Proof. repeat split; vm_compute; reflexivity. Qed.
 
-Lemma cfg_array_accepted :
-  is_accepted (new true E0004 (RawSeq [JStr (au (ext_name E0004)); JStr (au (b "md5")); JNum 2; JNum 2])) = true /\
-  allowed E0004 (RawSeq [JStr (au (ext_name E0004)); JStr (au (b "md5")); JNum 2; JNum 2]) = false.
-Proof. split; vm_compute; reflexivity. Qed.
+(** a JSON array (fix 8478633) is refused by code and documents, for all five extensions *)
+Lemma fixed_cfg_array :
+  new true E0004 (RawSeq [JStr (au (ext_name E0004)); JStr (au (b "md5")); JNum 2; JNum 2]) = Err /\
+  allowed E0004 (RawSeq [JStr (au (ext_name E0004)); JStr (au (b "md5")); JNum 2; JNum 2]) = false /\
+  new true E0002 (RawSeq [JStr (au (ext_name E0002))]) = Err /\
+  new true E0003 (RawSeq [JStr (au (ext_name E0003)); JStr (au (b "md5")); JNum 2; JNum 2]) = Err /\
+  new true E0006 (RawSeq [JStr (au (ext_name E0006)); JStr (au (b ":"))]) = Err /\
+  new true E0007 (RawSeq [JStr (au (ext_name E0007)); JStr (au (b ":")); JNum 2; JNum 2]) = Err /\
+  new true E0007 (RawSeq []) = Err /\
+  is_accepted (new true E0004 (obj (JStr (au (ext_name E0004))) (JStr (au (b "md5"))) (JNum 2) (JNum 2) JAbsent JAbsent JAbsent JAbsent)) = true.
+Proof. repeat split; vm_compute; reflexivity. Qed.
 
 (** configurations the theorems talk about exist on both sides *)
 Lemma cfg_examples :
